@@ -19,7 +19,7 @@ class Gen5(P.Gen):
 
     def __init__(self, rng, **kw):
         super().__init__(rng, **kw)
-        self.w.update({"dupselect": 0.8, "joinpick": 1.2, "exclude": 1.6, "knownjoin": 1.5, "joinsplitpick": 1.5})
+        self.w.update({"dupselect": 0.8, "joinpick": 1.2, "exclude": 1.6, "knownjoin": 1.5, "joinsplitpick": 1.5, "casealias": 0.5})
         P.nid("zz")
 
     def t_dupselect(self, st):
@@ -68,12 +68,17 @@ class Gen5(P.Gen):
             return None
         n = 1 if r.random() < 0.6 else 2
         ex = r.sample(named, min(n, len(named) - 1))
+        if st["order"] is not None and r.random() < 0.5:
+            # exclude a column the order in effect sorts by: the back end must carry it for ORDER BY and still hide it
+            keyed = [c for c in named if any(c in P.expr_cols(e) for _, e in st["order"])]
+            if keyed:
+                ex = [r.choice(keyed)]
         if st["order"] is not None:
             st["uniq_dropped"] = True
         st["cols"] = [c for c in st["cols"] if c not in ex]
         items = ["%s%s" % ((q + ".") if q else "", c) for q, c in ex]
         citems = ["(%s, %d%%N)" % (P.coq_opt(q), P.nid(c)) for q, c in ex]
-        return P.Step("exclude", "select !{%s}" % ", ".join(items), "TExclude [%s]" % "; ".join(citems))
+        return P.Step("exclude", "select !{%s}" % ", ".join(items), "TExclude [%s]" % "; ".join(citems), ex=[c for _, c in ex])
 
     def t_knownjoin(self, st):
         """both join sides have fully known columns (explicit select on each) and share column names"""
@@ -94,6 +99,24 @@ class Gen5(P.Gen):
                       "TJoin %s %d%%N %s %s %s" % (side, P.nid("u"), P.coq_names(ucols), usel, P.coq_expr(on)), side=side)
 
 
+    def t_casealias(self, st):
+        """an alias that differs from its source column only by case: PRQL names are case-sensitive, so this is a
+        NEW column next to the old one (terminal: engines resolve later references case-insensitively)"""
+        cols = [c for c in st["cols"] if c[0] is None and c[1] in ("a", "b", "c", "g", "id")]
+        if not cols or st["joined"]:
+            return None
+        q, c = self.r.choice(cols)
+        up = c.upper()
+        st["stop"] = True
+        if self.r.random() < 0.5:
+            st["cols"] = st["cols"] + [(None, up)]
+            return P.Step("casealias", "derive {%s = %s}" % (up, c), "TDerive [(Some %d%%N, ECol None %d%%N)]" % (P.nid(up), P.nid(c)))
+        keep = [x for x in st["cols"] if x[0] is None and not x[1].startswith("?") and x[1] != c][:2]
+        items = [(None, c), (up, c)] + [(None, k[1]) for k in keep]
+        st["cols"] = [(None, c), (None, up)] + [(None, k[1]) for k in keep]
+        return P.Step("casealias", "select {%s}" % ", ".join(("%s = %s" % (al, n)) if al else n for al, n in items),
+                      "TSelect [%s]" % "; ".join("(%s, ECol None %d%%N)" % (("Some %d%%N" % P.nid(al)) if al else "None", P.nid(n)) for al, n in items))
+
     def t_joinsplitpick(self, st):
         """after a join: force a sub-query split (derive then filter), then select same-named columns of both sides"""
         if not st["joined"] or not any(c[0] == "u" for c in st["cols"]) or not any(c[0] == "t" for c in st["cols"]):
@@ -112,6 +135,9 @@ class Gen5(P.Gen):
         return self.t_joinpick(st)
 
 
+EXCLUDING = ("sql.duckdb", "sql.bigquery", "sql.snowflake")     # dialects with `* EXCLUDE (..)` / `* EXCEPT (..)`
+
+
 def classify(rec):
     fid = E.classify_common(rec)
     if fid:
@@ -126,18 +152,31 @@ def classify(rec):
         return "F23-helper-column-exposed"      # same root: a star cannot exclude on this dialect, here a user-excluded column leaks
     if rec["verdict"] == "sql-err" and re.search(r"no such column: _expr_\d+", str(rec.get("sqlite"))) and "join" in kinds and re.search(r"SELECT \w+\.\*, u\.\*", sql):
         return "F24-dangling-renamed-duplicate"
-    if ("joinpick" in kinds or "knownjoin" in kinds or "join" in kinds) and any(re.fullmatch(r"_expr_\d+", c) for c in cols) and re.search(r" AS _expr_\d+", sql):
+    if ("joinpick" in kinds or "knownjoin" in kinds or "join" in kinds) and any(re.fullmatch(r"_expr_\d+", c) for c in cols) and re.search(r" AS \"?_expr_\d+\"?", sql):
         return "F34-renamed-duplicate-name-leaks"
     cols_n, frame_n = len(rec.get("sqlite_cols") or []), len(rec.get("model_names") or [])
     if rec["verdict"] in ("names", "rows") and cols_n < frame_n:
         last_select = sql[sql.rfind("SELECT "):]
         sel_list = last_select[:last_select.find(" FROM ")] if " FROM " in last_select else last_select
         # deduplicate_select_items only drops qualified identifiers (`x.col`) whose parts were all seen before
-        if ("joinpick" in kinds or "knownjoin" in kinds) and len(re.findall(r"\b\w+\.\"?\w+\"?", sel_list)) >= 2:
+        if ("joinpick" in kinds or "knownjoin" in kinds) and len(re.findall(r"\b\w+\"?\.\"?\w+\"?", sel_list)) >= 2:
             return "F13-duplicate-select-merged"
         if kinds and kinds[-1] == "dupselect":
             return "F13-duplicate-select-merged"
-    if ("group_take" in kinds or "group_win" in kinds) and not rec["program"].meta.get("final_select", True) and re.search(r"SELECT \*", sql):
+    if rec["target"] in EXCLUDING and kinds.count("exclude") >= 2 and rec["verdict"] == "names":
+        # F43: of successive `select !{..}` only the last exclusion survives; the columns that come back are
+        # exactly columns excluded by an exclusion that is not the last one
+        rn = rec["program"].meta.get("rename") or {}
+        exs = [st.info.get("ex", []) for st in rec["program"].steps if st.kind == "exclude"]
+        earlier = {rn.get(c, c) for e in exs[:-1] for c in e}
+        want = [rn.get(w, w) for w in (rec.get("model_names") or []) if w is not None]
+        extra = list(cols)
+        for w in want:
+            if w in extra:
+                extra.remove(w)
+        if extra and len(cols) == len(rec.get("model_names") or []) + len(extra) and all(c in earlier for c in extra):
+            return "F43-earlier-exclusion-lost"
+    if ("group_take" in kinds or "group_win" in kinds) and not rec["program"].meta.get("final_select", True) and re.search(r"SELECT (DISTINCT ON \([^)]*\) )?\*", sql):
         return "F26-group-keys-first-vs-star"
     return None
 
@@ -159,7 +198,11 @@ def judge_cols(rec):
             return None            # empty result of a wildcard program: the frame is not observable from the model
         if len(cols) != len(mn):
             return "result has %d columns, the final frame has %d (%s vs %s)" % (len(cols), len(mn), cols, mn)
-        bad = [(i, w, g) for i, (w, g) in enumerate(zip(mn, cols)) if w is not None and not str(w).startswith("?") and w != g]
+        # SQLite resolves identifiers case-insensitively even when quoted: once `a` and "A" pass through a sub-query
+        # it reports the first one's spelling for both (an engine artefact; the star stream judges the spelling on the SQL text)
+        ci = any(s.kind == "casealias" for s in rec["program"].steps)
+        bad = [(i, w, g) for i, (w, g) in enumerate(zip(mn, cols)) if w is not None and not str(w).startswith("?")
+               and (w.lower() != g.lower() if ci else w != g)]
         if bad:
             return "column names/order differ from the final frame: %s vs %s" % (cols, mn)
         if v == "rows" and any(s.kind in ("joinpick", "knownjoin") for s in rec["program"].steps) \
@@ -268,6 +311,76 @@ def dedup_stream(ck, srcs, targets=("sql.sqlite", "sql.postgres")):
                             {"items": d["items"], "implementation_kept": d["kept"], "model_kept": got, "prql": src}, lambda c: None)
 
 
+def star_stream(ck, recs, targets=("sql.duckdb", "sql.bigquery", "sql.snowflake")):
+    """Result columns on dialects that HAVE a column-exclusion facility (`* EXCLUDE (..)`, `* EXCEPT (..)`), which we
+    cannot execute here: the emitted SQL is parsed (sqlparser) and every `*` / `tbl.*` [EXCLUDE|EXCEPT] is expanded
+    against the schemas of the instance's tables, CTEs and derived tables (harness `sqlcols`); the resulting column
+    list must be the final frame -- names, count, order -- exactly as for the executed SQLite result.  The expander is
+    itself validated on every run against the column names SQLite reports for the sqlite-dialect SQL."""
+    base = {}
+    for r in recs:
+        if r["target"] != "sql.sqlite" or r.get("model_names") is None or r["verdict"] not in ("ok", "names", "rows"):
+            continue
+        if not r.get("model_rows") and not r["program"].meta.get("final_select", True):
+            continue
+        base.setdefault(r["prql"], r)
+    items = sorted(base.items())
+
+    def schema(inst):
+        rn = inst.get("__rename__", {})
+        return {t: [rn.get(c, c) for c in P.inst_cols(inst, t)] for t in P.TABLES}
+    # (1) validate the expander against SQLite itself
+    ans = harness("sqlcols", [{"sql": r["sql"], "dialect": "sqlite", "schema": schema(r["instance"])} for _, r in items])
+    agree = differ = 0
+    for (src, r), a in zip(items, ans):
+        got = a.get("cols")
+        real = [re.sub(r":\d+$", "", c) for c in (r.get("sqlite_cols") or [])]
+        if got is None:
+            ck.stat("star", "expander_declined")
+            continue
+        if len(got) == len(real) and all(g is None or g == w for g, w in zip(got, real)):
+            agree += 1
+        else:
+            differ += 1
+            ck.sample({"star_expander_differs_from_sqlite": {"prql": src, "sql": r["sql"], "expander": got, "sqlite": real}})
+    ck.coverage["star_expander_validation"] = {"agrees_with_sqlite": agree, "differs": differ}
+    # (2) the dialects with EXCLUDE / EXCEPT
+    reqs = [{"src": src, "target": t} for src, _ in items for t in targets]
+    comp = harness("compile", reqs)
+    creqs, meta = [], []
+    for q, a in zip(reqs, comp):
+        r = base[q["src"]]
+        if "ok" not in a:
+            continue          # acceptance differences between dialects are not this stream's subject
+        creqs.append({"sql": a["ok"], "dialect": q["target"][4:], "schema": schema(r["instance"])})
+        meta.append((q, a["ok"], r))
+    cans = harness("sqlcols", creqs) if creqs else []
+    for (q, sql, r), a in zip(meta, cans):
+        ck.count("star", q["src"] + "@" + q["target"], nontrivial="*" in sql)
+        if "cols" not in a:
+            ck.stat("star", "not_expandable:" + str(a.get("err") or a.get("parse_err"))[:60])
+            continue
+        rec = dict(r, target=q["target"], sql=sql, sqlite_cols=[c if c is not None else "?" for c in a["cols"]], verdict="names")
+        rec["sqlite_rows"] = None
+        why = judge_star(rec, a["cols"])
+        if why:
+            ck.disagreement("%s: %s [%s]" % (why, q["src"].replace("\n", " | ")[:220], q["target"]),
+                            {"prql": q["src"], "target": q["target"], "sql": sql, "expanded_result_columns": a["cols"], "final_frame": r.get("model_names"),
+                             "schema": schema(r["instance"])}, lambda c, rec=rec: classify(rec))
+
+
+def judge_star(rec, cols):
+    mn = rec.get("model_names")
+    rn = rec["program"].meta.get("rename") or {}
+    mn = [rn.get(w, w) if w is not None else None for w in mn]
+    if len(cols) != len(mn):
+        return "result has %d columns, the final frame has %d (%s vs %s)" % (len(cols), len(mn), cols, mn)
+    bad = [(i, w, g) for i, (w, g) in enumerate(zip(mn, cols)) if w is not None and not str(w).startswith("?") and g is not None and w != g]
+    if bad:
+        return "column names/order differ from the final frame: %s vs %s" % (cols, mn)
+    return None
+
+
 def run():
     ck = Check("C05", level="proof")
     pr = ck.prove()
@@ -314,6 +427,11 @@ def run():
     add(["join", "joinsplitpick"], True, rename=True, k=10 * m)  # same-named (capitalised) columns of both sides across a split
     add(["join", "joinsplitpick"], True, k=6 * m)
     add(["sort", "join", "take", "joinpick"], True, rename=True, k=6 * m)
+    add(["sort", "exclude"], False, k=8 * m)                   # the sort key itself is excluded (single table: the limiting SELECT carries the exclusion)
+    add(["sort", "take", "exclude"], False, k=4 * m)
+    add(["casealias"], True, k=4 * m)
+    add(["casealias"], False, k=4 * m)
+    add(["derive", "casealias"], False, k=4 * m)
     add(["group_take"], False, k=4 * m)
     add(["derive", "group_win", "exclude"], False, k=4 * m)
     recs = E.run_stream(ck, "columns", cases, targets, judge_cols, classify)
@@ -321,6 +439,7 @@ def run():
     srcs = sorted({r["prql"] for r in recs})
     wildcard_stream(ck, srcs)
     dedup_stream(ck, srcs)
+    star_stream(ck, recs)
     ck.proof_broken_violation(found_input=bool(ck.violations))
     ck.assumptions += ["every table has an extra column `zz` that no program mentions, so a `*` the compiler emits expands at run time to more than the compiler knows",
                        "unnamed frame columns (expressions without alias, names shadowed by a later column of the same name) impose no name, only a position"]
